@@ -1,6 +1,7 @@
 package checks
 
 import (
+	"bytes"
 	"encoding/json"
 	"fmt"
 	"math/big"
@@ -20,7 +21,9 @@ import (
 // and every selection mask: (1) every truncation length of a valid encoding,
 // (2) every 32-byte word of a valid encoding replaced by each of 18 boundary
 // values (thorough: every pair of words x 8 values for events <= 4 nodes),
-// (3) every string of <= 4 words (thorough 5) over a 6-value word alphabet.
+// (3) every string of <= 4 words (thorough 5) over a 6-value word alphabet,
+// (4) every ordered pair (events <= 4 nodes, thorough 5: triple) of valid / half-cut encodings decoded back-to-back
+// on one reused Result and one reused Integration, each call judged against its own input.
 
 type c10Case struct {
 	Inputs []*ref.Node `json:"inputs"`
@@ -32,12 +35,14 @@ func init() {
 	Register(&Check{
 		ID:        "C10",
 		Level:     "exploration",
-		Technique: "bounded-exhaustive hostile-input enumeration (all truncations, all single/paired boundary-word substitutions, all short word strings) on the real decoder (Result.Scan and Integration.Insert) with panic/over-read/row-count/allocation oracles",
+		Technique: "bounded-exhaustive hostile-input enumeration (all truncations, all single/paired boundary-word substitutions, all short word strings, all ordered pairs/triples of encodings decoded back-to-back on one reused decoder) on the real decoder (Result.Scan and Integration.Insert) with panic/sub-range-of-this-call's-input/row-count/allocation oracles",
 		Rule: "events: all declarations <= 5 nodes (thorough 6) over leaves {uint256,bytes}, k in {2,12}, every selection mask; inputs: every prefix length of a valid encoding (beyond 640 bytes: the three lengths around every word boundary); every word (encodings > 2 KiB: first 40 and last 8 words) x 18 boundary values {0,1,31,32,33,len-32,len-31,len,len+1,2^31,2^32,2^63-1,2^63,2^64-32,2^64-1,2^64,2^255,2^256-1}; all strings of <= 4 words over {0,1,32,64,2^63,2^256-1}. " +
-			"Non-trivial = the input differs from the valid encoding and at least one leaf is selected; each (event,mask,input) is enumerated once.",
+			"Histories (group seq): per (event, mask) ONE reused dig.Result and ONE reused Integration decode (s2) a de Bruijn sequence of order 2 over the letters {valid encodings of the 7 value shapes (array lengths 0..3, byte lengths 0,1,5,31,32,33,64)} + {word-aligned first half of each}, duplicates removed (<= 14 letters, every ordered pair back-to-back, <= 197 calls) and, for events <= 4 nodes (thorough 5), (s3) a de Bruijn sequence of order 3 over the valid letters (every ordered triple back-to-back, <= 345 calls); every call gets its own buffer and is judged on its own: each returned cell / copied bytea value is empty or lies (by address) inside the bytes supplied to that call, each copied integer is zero or occurs in them. " +
+			"Non-trivial = the input differs from the valid encoding (seq: the call is not the first of its sequence) and at least one leaf is selected; each (event,mask,input) and each (event,mask,sequence,step) is enumerated once.",
 		Assumptions: []string{
 			"row-count bound on hostile data: (number of array nodes + 1) x (len/32+2)^(max array nesting depth); overlapping offsets legitimately multiply rows, a length *claimed* by the data must not",
 			"allocation is judged per (event, mask, input family) group with runtime.MemStats.TotalAlloc (exact): total <= 2x the sum of per-decode allowances (rows the input size permits + constant) + 1 MiB",
+			"sub-range is judged by address: every call is given a freshly allocated copy of its input that stays alive for the whole sequence, so bytes retained from an earlier call can never lie inside the current input; a sequence stops at its first violating call",
 			"a single case running > 20 s is reported as unbounded (inputs are <= a few KiB and decode in microseconds)",
 		},
 		Budget:        map[string]time.Duration{"quick": 150 * time.Second, "thorough": 1100 * time.Second},
@@ -92,19 +97,30 @@ func c10Allow(ncols, depth, l int) uint64 {
 }
 
 func c10One(ev dig.Event, ncols, depth int, data []byte) (class, detail string) {
+	return c10Judge(dig.NewResult(ev.ABIType()), depth, data, "overread")
+}
+
+// c10Bound is the row-count bound of one decode of a len-byte input.
+func c10Bound(depth, l int) int {
 	narr := depth >> 8
 	depth &= 0xff
+	words := l/32 + 2
+	bound := narr + 1
+	for i := 0; i < depth || i < 1; i++ {
+		bound *= words
+	}
+	return bound
+}
+
+// c10Judge scans data with res (fresh, or reused by a sequence) and judges the call: no panic, row count within
+// the bound the input size permits, and every returned cell is empty or a sub-range (by address) of THIS call's data.
+func c10Judge(res *dig.Result, depth int, data []byte, subClass string) (class, detail string) {
 	defer func() {
 		if r := recover(); r != nil {
 			class, detail = "panic", fmt.Sprintf("panic: %v", r)
 		}
 	}()
-	words := len(data)/32 + 2
-	bound := narr + 1
-	for i := 0; i < depth || i < 1; i++ {
-		bound *= words
-	}
-	res := dig.NewResult(ev.ABIType())
+	bound := c10Bound(depth, len(data))
 	err := res.Scan(data)
 	if err != nil {
 		return "", ""
@@ -112,23 +128,119 @@ func c10One(ev dig.Event, ncols, depth int, data []byte) (class, detail string) 
 	if res.Len() > bound {
 		return "rows", fmt.Sprintf("%d rows from a %d-byte input (bound %d)", res.Len(), len(data), bound)
 	}
-	if len(data) == 0 {
-		return "", ""
-	}
-	lo := uintptr(unsafe.Pointer(&data[0]))
-	hi := lo + uintptr(len(data))
 	for i := 0; i < res.Len(); i++ {
 		for j, cell := range res.At(i) {
-			if len(cell) == 0 {
-				continue
-			}
-			p := uintptr(unsafe.Pointer(&cell[0]))
-			if p < lo || p+uintptr(len(cell)) > hi {
-				return "overread", fmt.Sprintf("row %d col %d: %d-byte cell lies outside the %d-byte input", i, j, len(cell), len(data))
+			if !c10Within(cell, data) {
+				return subClass, fmt.Sprintf("row %d col %d: %d-byte cell %x is not a sub-range of the %d-byte input of this call", i, j, len(cell), c10Head(cell), len(data))
 			}
 		}
 	}
 	return "", ""
+}
+
+func c10Head(b []byte) []byte {
+	if len(b) > 40 {
+		return b[:40]
+	}
+	return b
+}
+
+// c10Within: cell is empty or its memory lies inside data (same backing array range).
+func c10Within(cell, data []byte) bool {
+	if len(cell) == 0 {
+		return true
+	}
+	if len(data) == 0 {
+		return false
+	}
+	lo := uintptr(unsafe.Pointer(&data[0]))
+	hi := lo + uintptr(len(data))
+	p := uintptr(unsafe.Pointer(&cell[0]))
+	return p >= lo && p+uintptr(len(cell)) <= hi
+}
+
+// c10JudgeInsert feeds data through the (reused) Integration and judges the rows handed to CopyFrom by this call:
+// a byte-slice value is empty or a sub-range (by address) of this call's data; an integer value is zero or its
+// 32-byte big-endian form occurs in this call's data.
+func c10JudgeInsert(ir abiInsRows, data []byte) (class, detail string) {
+	rows, err, p := ir.insertRows(data)
+	if p != "" {
+		return "panic-insert", "Integration.Insert: panic: " + p
+	}
+	if err != nil {
+		return "", ""
+	}
+	for i, row := range rows {
+		for j, v := range row {
+			switch x := v.(type) {
+			case []byte:
+				if !c10Within(x, data) {
+					return "subrange-insert", fmt.Sprintf("Integration.Insert: row %d col %d: %d-byte value %x is not a sub-range of the %d-byte log data of this call", i, j, len(x), c10Head(x), len(data))
+				}
+			case interface{ Bytes32() [32]byte }:
+				w := x.Bytes32()
+				if w != [32]byte{} && !bytes.Contains(data, w[:]) {
+					return "subrange-insert", fmt.Sprintf("Integration.Insert: row %d col %d: integer %x does not occur in the %d-byte log data of this call", i, j, w, len(data))
+				}
+			}
+		}
+	}
+	return "", ""
+}
+
+// c10DeBruijn returns a linear sequence over 0..k-1 in which every word of length n occurs as a window
+// (Fredricksen-Kessler-Maiorana; the cyclic sequence is unrolled by repeating its first n-1 symbols).
+func c10DeBruijn(k, n int) []int {
+	a := make([]int, n+1)
+	var seq []int
+	var db func(t, p int)
+	db = func(t, p int) {
+		if t > n {
+			if n%p == 0 {
+				seq = append(seq, a[1:p+1]...)
+			}
+			return
+		}
+		a[t] = a[t-p]
+		db(t+1, p)
+		for j := a[t-p] + 1; j < k; j++ {
+			a[t] = j
+			db(t+1, t)
+		}
+	}
+	db(1, 1)
+	l := len(seq)
+	for i := 0; i < n-1; i++ {
+		seq = append(seq, seq[i%l])
+	}
+	return seq
+}
+
+// c10Letters: the sequence alphabet of one declaration: the valid encodings of the 7 value shapes (array lengths
+// 0..3, byte lengths 0,1,5,31,32,33,64) and, second, the word-aligned first half of each; duplicates removed.
+func c10Letters(inputs []*ref.Node) (valid, cut [][]byte) {
+	seen := map[string]bool{}
+	for si := range abiShapes {
+		sh := abiShapes[si]
+		sh.Reset()
+		vals := make([]ref.Value, len(inputs))
+		for i, n := range inputs {
+			vals[i] = ref.Gen(n, &sh)
+		}
+		e := ref.EncodeInputs(inputs, vals)
+		if !seen[string(e)] {
+			seen[string(e)] = true
+			valid = append(valid, e)
+		}
+	}
+	for _, e := range valid[:len(valid):len(valid)] {
+		h := e[:len(e)/64*32]
+		if !seen[string(h)] {
+			seen[string(h)] = true
+			cut = append(cut, h)
+		}
+	}
+	return valid, cut
 }
 
 func c10Group(c *fw.Ctx, inputs []*ref.Node, group string, only string) {
@@ -145,7 +257,8 @@ func c10Group(c *fw.Ctx, inputs []*ref.Node, group string, only string) {
 	sel := ncols > 0
 	sig := sigOf(inputs)
 	kcase := c10Case{Inputs: cloneSeqSel(inputs), Group: group}
-	if only == "" {
+	if only == "" || group == "seq" {
+		kcase.Data = only
 		raw, _ := json.Marshal(kcase)
 		fw.Crumb(raw)
 		c.Enter(fw.Violation{Property: "C10", Class: "unbounded", Key: "unbounded:" + group + ":" + sig, Detail: "a decode in this group did not return within 20 s", Case: raw})
@@ -167,6 +280,10 @@ func c10Group(c *fw.Ctx, inputs []*ref.Node, group string, only string) {
 			c.Outcome("alloc")
 		}
 	}()
+	if group == "seq" {
+		c10Seq(c, inputs, ev, ncols, depth, sel, sig, kcase, only, &allow)
+		return
+	}
 	// the same inputs through Integration.Insert (gate, Scan, conversion of every cell to its database type, CopyFrom)
 	ins, hasIns := newAbiIns(ev)
 	try := func(data []byte, valid bool) {
@@ -269,6 +386,62 @@ func c10Group(c *fw.Ctx, inputs []*ref.Node, group string, only string) {
 	}
 }
 
+// c10Seq: histories on ONE reused decoder. Per (event, mask) one fresh Result and one fresh Integration decode
+// (s3) a de Bruijn sequence of order 3 over the valid letters — every ordered triple of encodings back-to-back —
+// and (s2) a de Bruijn sequence of order 2 over valid+cut letters — every ordered pair, including a decode that
+// fails half-way followed by a valid one. Every call of the sequence is judged by the sub-range oracle against
+// the bytes supplied to THAT call (each call gets its own buffer, so data kept from an earlier call is foreign).
+func c10Seq(c *fw.Ctx, inputs []*ref.Node, ev dig.Event, ncols, depth int, sel bool, sig string, kcase c10Case, only string, allow *uint64) {
+	valid, cut := c10Letters(inputs)
+	for _, name := range []string{"s3", "s2"} {
+		if only != "" && only != name {
+			continue
+		}
+		letters, order := valid, 3
+		if name == "s2" {
+			letters, order = append(append([][]byte(nil), valid...), cut...), 2
+		}
+		seq := c10DeBruijn(len(letters), order)
+		res := dig.NewResult(ev.ABIType())
+		var ir abiInsRows
+		if ins, ok := newAbiIns(ev); ok {
+			ir, _ = ins.(abiInsRows)
+		}
+		*allow += 5 * c10Allow(ncols, depth, 0)
+		keep := make([][]byte, 0, len(seq)) // every call's buffer stays alive (and distinct) for the whole sequence
+		for step, li := range seq {
+			c.Tick()
+			data := append([]byte(nil), letters[li]...)
+			keep = append(keep, data)
+			*allow += c10Allow(ncols, depth, len(data)) + uint64(3*len(data))
+			class, detail := c10Judge(res, depth, data, "subrange")
+			c.Count("seq_scans", 1)
+			if class == "" && ir != nil {
+				*allow += 4*c10Allow(ncols, depth, len(data)) + uint64(3*len(data))
+				class, detail = c10JudgeInsert(ir, data)
+				c.Count("seq_inserts", 1)
+			}
+			c.Eval(sel && step > 0)
+			if class != "" {
+				k := kcase
+				k.Data = name
+				hist := ""
+				for _, pj := range seq[max(0, step-2) : step+1] {
+					kind := "valid"
+					if pj >= len(valid) {
+						kind = "cut"
+					}
+					hist += fmt.Sprintf(" #%d(%s,%dB)", pj, kind, len(letters[pj]))
+				}
+				c.Violation("C10", class, class+":seq:"+sig, fmt.Sprintf("%s [seq %s] step %d of %d on one reused decoder, last letters (oldest first):%s, input of this call %x: %s", sig, name, step, len(seq), hist, data, detail), k)
+				c.Outcome(class)
+				break
+			}
+		}
+		runtime.KeepAlive(keep)
+	}
+}
+
 func c10Run(c *fw.Ctx) {
 	maxSize := 5
 	if c.Thorough() {
@@ -288,6 +461,10 @@ func c10Run(c *fw.Ctx) {
 			setMask(inputs, mask)
 			c10Group(c, inputs, "prefix", "")
 			c10Group(c, inputs, "word", "")
+			if size <= 4 || (c.Thorough() && size <= 5) {
+				c10Group(c, inputs, "seq", "s3") // every ordered triple of valid encodings on one reused decoder
+			}
+			c10Group(c, inputs, "seq", "s2") // every ordered pair of valid / half-cut encodings on one reused decoder
 			if size <= 4 {
 				if c.Thorough() {
 					c10Group(c, inputs, "pair", "")
